@@ -8,7 +8,10 @@
 // callback installed they return immediately.
 package verifhook
 
-import "sync/atomic"
+import (
+	"sort"
+	"sync/atomic"
+)
 
 // Event is the value passed to Note by sites that have a source object (for example a notifier).
 type Event struct {
@@ -19,11 +22,13 @@ type Event struct {
 type (
 	yieldFn func(site string)
 	noteFn  func(site string, v any)
+	orderFn func(site string, keys []string)
 )
 
 var (
 	yieldHook atomic.Pointer[yieldFn] //nolint:gochecknoglobals
 	noteHook  atomic.Pointer[noteFn]  //nolint:gochecknoglobals
+	orderHook atomic.Pointer[orderFn] //nolint:gochecknoglobals
 )
 
 // SetYield installs (or, with nil, removes) the scheduler callback.
@@ -60,4 +65,31 @@ func Note(site string, v any) {
 	if f := noteHook.Load(); f != nil {
 		(*f)(site, v)
 	}
+}
+
+// SetOrder installs (or, with nil, removes) the callback that may permute, in place, the order in which
+// a set is iterated.
+func SetOrder(f func(site string, keys []string)) {
+	if f == nil {
+		orderHook.Store(nil)
+
+		return
+	}
+	fn := orderFn(f)
+	orderHook.Store(&fn)
+}
+
+// Keys returns the keys of the set: sorted, then permuted by the installed callback, so that the order
+// in which the caller walks the set is decided by the deterministic simulator instead of the runtime.
+func Keys(site string, m map[string]struct{}) []string {
+	out := make([]string, 0, len(m))
+	for k := range m {
+		out = append(out, k)
+	}
+	sort.Strings(out)
+	if f := orderHook.Load(); f != nil {
+		(*f)(site, out)
+	}
+
+	return out
 }
